@@ -69,6 +69,7 @@ algo_s = st.sampled_from([0, 0, 1, 2])
 # same-size group (4 bytes, one of them CRLF text so md5 != md5-dos2unix) + sizes that differ
 content_s = st.one_of(
     st.sampled_from(["p:A", "p:B", "h:610d0a62", "h:0d0a0d0a", "h:41414142"]),
+    st.sampled_from(["p:A", "p:B", "h:610d0a62", "h:0d0a0d0a", "h:41414142"]),
     st.sampled_from(["p:crlf", "p:lf", "p:hello", "p:empty", "p:one", "p:nul", "p:C", "p:b512",
                      "p:b513", "p:hi8"]),
     gen.contents(pool_weight=1, max_size=24),
@@ -86,6 +87,12 @@ clock_s = st.one_of(
     st.tuples(st.just("keep")),
     st.tuples(st.just("old"), st.integers(0, 7)),
 ).map(list)
+# a content mutation may be preceded by an honest hashing run of the tool on that path ("prime":
+# an entry for the pre-mutation triple exists) and followed at once by a lookup of that path through
+# one drawn route ("probe"), so that every route gets to be the first one to see the changed file
+prime_s = st.sampled_from([None, None, 0, 0, 1, 2])
+probe_s = st.sampled_from([None, None, None, "get", "get+info", "many", "many+infos", "hash_file",
+                           "hash_file+info", "get_hashes", "build_file", "build_entries", "index"])
 size_s = st.sampled_from([0, 1, 2, 2, 3, 5, 5, 8, 8, 8, 8, 998, 999, 1000, 1001, 2500])
 pos_s = st.lists(
     st.one_of(st.sampled_from([0, 1, 997, 998, 999, 1000, 1001, 1997, 1998, 1999, 2497, 2499]),
@@ -140,7 +147,7 @@ class C13Machine(TraceMachine):
             p = self.p(rel)
             with open(p, "xb") as f:
                 f.write(gen.content_bytes(c))
-            self.clock(p, ["d", 0], T0_NS + i * 1_000_000_000)
+            self.clock(p, ["d", 0], T0_NS + i * 1_000_000_000 + 500_000_000)
         # the index a caller kept from an earlier session (hashes of the initial files)
         from dvc_data.index.build import build as ibuild
         from dvc_data.index.save import md5 as imd5
@@ -313,13 +320,161 @@ class C13Machine(TraceMachine):
         it = iter(self.pad[(offset + i) % N_PAD] for i in range(n))
         return [x if x is not None else next(it) for x in out]
 
+    # ---- single-path routes (used by the query rules and by the probes after a mutation) --------
+    def r_get(self, p, given):
+        info = self.fs.info(p) if given and os.path.isfile(p) else None
+        self.cnt["queries"] += 1
+        _meta, hi = self.state.get(p, self.fs, info=info)
+        self.take_hits()
+        if hi is not None:
+            self.check("State.get", p, hi)
+        self.labels.add("q:State.get" + ("+info" if info else ""))
+
+    def r_get_many(self, paths, infos, n_label=None):
+        live = set(self.live_files())
+        if infos == "none":
+            given = {}
+        else:
+            given = {p: self.fs.info(p) for p in paths
+                     if os.path.isfile(p) and (infos == "all" or p in live)}
+        self.cnt["queries"] += 1
+        res = list(self.state.get_many(paths, self.fs, given))
+        self.take_hits()
+        if [r[0] for r in res] != paths:
+            self.violate("batch-shape:State.get_many",
+                         f"get_many over {len(paths)} paths yielded {len(res)} results / other order")
+        nhit = 0
+        for p, _meta, hi in res:
+            if hi is not None:
+                nhit += 1
+                self.check("State.get_many", p, hi)
+        for i, (p, meta, hi) in enumerate(res):
+            single = self.state.get(p, self.fs, info=given.get(p))
+            if single != (meta, hi):
+                self.violate("batch-vs-single:State.get_many",
+                             f"batch of {len(paths)}: get_many gave {hi} for {p} (position {i}), "
+                             f"get gives {single[1]}")
+        self.state.hits = []
+        self.size_labels("State.get_many", len(paths) if n_label is None else n_label, nhit)
+        if given:
+            self.labels.add("q:State.get_many+infos")
+
+    def r_hash_file(self, p, name, given):
+        from dvc_data.hashfile.hash import hash_file
+
+        info = self.fs.info(p) if given else None
+        self.cnt["queries"] += 1
+        _meta, hi = hash_file(p, self.fs, name, state=self.state, info=info)
+        self.take_hits(name)
+        self.check("hash_file", p, hi, name)
+        self.labels.add(f"q:hash_file:{name}" + ("+info" if given else ""))
+
+    def r_get_hashes(self, paths, name, n_label=None):
+        from dvc_data.hashfile.build import _get_hashes
+
+        paths = [p for p in paths if os.path.isfile(p)]
+        infos = {p: self.fs.info(p) for p in paths}
+        self.cnt["queries"] += 1
+        res = _get_hashes(list(paths), self.fs, name, infos, state=self.state)
+        nhit = len(self.take_hits(name))
+        if sorted(res) != sorted(paths):
+            self.violate("batch-shape:_get_hashes", "_get_hashes did not answer exactly the paths asked")
+        for p in paths:
+            self.check("_get_hashes", p, res[p][1], name)
+        self.size_labels("_get_hashes", len(paths) if n_label is None else n_label, nhit)
+
+    def r_build_file(self, p, name, kind):
+        from dvc_data.hashfile.build import build
+
+        odb = ops.make_odb(kind, os.path.join(self.dir, f"odb-{kind}-{name}"), state=self.state,
+                           hash_name=name)
+        self.cnt["queries"] += 1
+        _staging, _meta, obj = build(odb, p, self.fs, name)
+        self.take_hits(name)
+        self.check("build(file)", p, obj.hash_info, name)
+        self.labels.add(f"q:build(file):{name}")
+
+    def r_build_entries(self, name):
+        from dvc_data.index.build import build_entries
+
+        self.cnt["queries"] += 1
+        entries = list(build_entries(self.ws, self.fs, compute_hash=True, state=self.state,
+                                     hash_name=name))
+        self.take_hits(name)
+        seen = set()
+        for e in entries:
+            if e.meta is not None and e.meta.isdir:
+                continue
+            p = os.path.join(self.ws, *e.key)
+            seen.add(p)
+            self.check("build_entries", p, e.hash_info, name)
+        if seen != set(self.live_files()):
+            self.violate("listing:build_entries", "entries do not cover exactly the files on disk")
+        self.labels.add(f"q:build_entries:{name}")
+
+    def r_index_update(self, name, then_md5):
+        from dvc_data.index.build import build as ibuild
+        from dvc_data.index.save import md5 as imd5
+        from dvc_data.index.update import update
+
+        self.cnt["queries"] += 1
+        new = ibuild(self.ws, self.fs)
+        update(new, self.old)
+        carried = self.check_index("index.update", new)
+        self.cnt["carried"] += carried
+        self.labels.add("q:index.update")
+        if self.mut_count > self.old_epoch:
+            self.nt.add("update-after-mutation")
+            self.labels.add("update-after-mutation:" + ("some-carried" if carried else "none-carried"))
+        if then_md5:
+            new = imd5(new, state=self.state, name=name)
+            self.take_hits(name)
+            self.check_index("index.update+md5", new, name)
+        self.state.hits = []
+        self.old, self.old_epoch = new, self.mut_count
+
+    def prime(self, p, prime):
+        """An earlier honest run of the tool hashed this path: an entry for the current triple."""
+        if prime is None:
+            return
+        from dvc_data.hashfile.hash import hash_file
+
+        name = ALGOS[prime]
+        _meta, hi = hash_file(p, self.fs, name, state=self.state)
+        self.state.hits = []
+        self.check("hash_file", p, hi, name)
+        self.labels.add("primed-before-mutation")
+
+    def probe(self, p, probe, algo):
+        if probe is None:
+            return
+        name = ALGOS[algo]
+        self.labels.add("probe-after-mutation:" + probe)
+        if probe in ("get", "get+info"):
+            self.r_get(p, probe.endswith("+info"))
+        elif probe in ("many", "many+infos"):
+            others = [q for q in self.live_files() if q != p]
+            paths = others[:1] + [p] + others[1:] + [self.p(NEVER[0])]
+            self.r_get_many(paths, "all" if probe.endswith("+infos") else "none")
+        elif probe in ("hash_file", "hash_file+info"):
+            self.r_hash_file(p, name, probe.endswith("+info"))
+        elif probe == "get_hashes":
+            self.r_get_hashes(self.live_files(), name)
+        elif probe == "build_file":
+            self.r_build_file(p, name, "local")
+        elif probe == "build_entries":
+            self.r_build_entries(name)
+        elif probe == "index":
+            self.r_index_update(name, True)
+
     # ---- mutation rules ------------------------------------------------------------------------
-    @rule(slot=slot_s, content=content_s, clock=clock_s)
+    @rule(slot=slot_s, content=content_s, clock=clock_s, prime=prime_s, probe=probe_s, algo=algo_s)
     @traced
-    def write_in_place(self, slot, content, clock):
+    def write_in_place(self, slot, content, clock, prime, probe, algo):
         p = self.existing(slot)
         if p is None:
             return
+        self.prime(p, prime)
         before, prev = self.triple(p), os.stat(p).st_mtime_ns
         ino = os.stat(p).st_ino
         with open(p, "r+b") as f:
@@ -329,13 +484,15 @@ class C13Machine(TraceMachine):
             raise HarnessError("write in place changed the inode")
         self.after_mutation(p, before, self.clock(p, clock, prev))
         self.labels.add("mut:write_in_place")
+        self.probe(p, probe, algo)
 
-    @rule(slot=slot_s, content=content_s, clock=clock_s)
+    @rule(slot=slot_s, content=content_s, clock=clock_s, prime=prime_s, probe=probe_s, algo=algo_s)
     @traced
-    def atomic_replace(self, slot, content, clock):
+    def atomic_replace(self, slot, content, clock, prime, probe, algo):
         p = self.existing(slot)
         if p is None:
             return
+        self.prime(p, prime)
         before, prev = self.triple(p), os.stat(p).st_mtime_ns
         tmp = p + ".tmp~"
         with open(tmp, "xb") as f:
@@ -345,6 +502,7 @@ class C13Machine(TraceMachine):
             raise HarnessError("atomic replace did not produce a new inode")
         self.after_mutation(p, before, self.clock(p, clock, prev))
         self.labels.add("mut:atomic_replace")
+        self.probe(p, probe, algo)
 
     @rule(slot=slot_s, clock=clock_s)
     @traced
@@ -366,9 +524,9 @@ class C13Machine(TraceMachine):
         self.after_mutation(p, None, None)
         self.labels.add("mut:delete")
 
-    @rule(slot=slot_s, content=content_s, clock=clock_s)
+    @rule(slot=slot_s, content=content_s, clock=clock_s, probe=probe_s, algo=algo_s)
     @traced
-    def recreate(self, slot, content, clock):
+    def recreate(self, slot, content, clock, probe, algo):
         p = self.missing(slot)
         if p is None:
             return
@@ -378,6 +536,7 @@ class C13Machine(TraceMachine):
         self.after_mutation(p, None, None)
         self.labels.add("mut:recreate" if self.hist.get(p) and len(self.hist[p]) > 1
                         else "mut:create")
+        self.probe(p, probe, algo)
 
     @rule(slot=slot_s, x=st.booleans(), step=st.booleans(), clock=clock_s)
     @traced
@@ -395,45 +554,13 @@ class C13Machine(TraceMachine):
     @rule(slot=slot_s, given=st.booleans())
     @traced
     def q_get(self, slot, given):
-        p = self.p(SLOTS[slot % len(SLOTS)])
-        info = self.fs.info(p) if given and os.path.isfile(p) else None
-        self.cnt["queries"] += 1
-        _meta, hi = self.state.get(p, self.fs, info=info)
-        self.take_hits()
-        if hi is not None:
-            self.check("State.get", p, hi)
-        self.labels.add("q:State.get" + ("+info" if info else ""))
+        self.r_get(self.p(SLOTS[slot % len(SLOTS)]), given)
 
     @rule(n=size_s, pos=pos_s, offset=st.integers(0, N_PAD - 1),
-          infos=st.sampled_from(["none", "all", "live"]))
+          infos=st.sampled_from(["none", "all", "all", "live"]))
     @traced
     def q_get_many(self, n, pos, offset, infos):
-        paths = self.batch(n, pos, offset)
-        live = set(self.live_files())
-        if infos == "none":
-            given = {}
-        else:
-            given = {p: self.fs.info(p) for p in paths
-                     if os.path.isfile(p) and (infos == "all" or p in live)}
-        self.cnt["queries"] += 1
-        res = list(self.state.get_many(paths, self.fs, given))
-        self.take_hits()
-        if [r[0] for r in res] != paths:
-            self.violate("batch-shape:State.get_many",
-                         f"get_many over {len(paths)} paths yielded {len(res)} results / other order")
-        nhit = 0
-        for p, _meta, hi in res:
-            if hi is not None:
-                nhit += 1
-                self.check("State.get_many", p, hi)
-        for p, meta, hi in res:
-            single = self.state.get(p, self.fs, info=given.get(p))
-            if single != (meta, hi):
-                self.violate("batch-vs-single:State.get_many",
-                             f"batch of {len(paths)}: get_many gave {hi} for {p} (position "
-                             f"{paths.index(p)}), get gives {single[1]}")
-        self.state.hits = []
-        self.size_labels("State.get_many", n, nhit)
+        self.r_get_many(self.batch(n, pos, offset), infos, n)
 
     def size_labels(self, route, n, nhit):
         self.labels.add(f"q:{route}")
@@ -446,18 +573,10 @@ class C13Machine(TraceMachine):
     @rule(slot=slot_s, algo=algo_s, given=st.booleans())
     @traced
     def q_hash_file(self, slot, algo, given):
-        from dvc_data.hashfile.hash import hash_file
-
         p = self.existing(slot)
         if p is None:
             return
-        name = ALGOS[algo]
-        info = self.fs.info(p) if given else None
-        self.cnt["queries"] += 1
-        _meta, hi = hash_file(p, self.fs, name, state=self.state, info=info)
-        self.take_hits(name)
-        self.check("hash_file", p, hi, name)
-        self.labels.add(f"q:hash_file:{name}")
+        self.r_hash_file(p, ALGOS[algo], given)
 
     @rule(what=st.sampled_from(["file", "dir", "dir"]), slot=slot_s, algo=algo_s,
           kind=st.sampled_from(ops.STORE_KINDS))
@@ -469,62 +588,32 @@ class C13Machine(TraceMachine):
         if p is None:
             return
         name = ALGOS[algo]
+        if what == "file":
+            self.r_build_file(p, name, kind)
+            return
         odb = ops.make_odb(kind, os.path.join(self.dir, f"odb-{kind}-{name}"), state=self.state,
                            hash_name=name)
         self.cnt["queries"] += 1
-        if what == "file":
-            _staging, _meta, obj = build(odb, p, self.fs, name)
-            self.take_hits(name)
-            self.check("build(file)", p, obj.hash_info, name)
-        else:
-            _staging, _meta, obj = build(odb, self.ws, self.fs, name)
-            self.take_hits(name)
-            listed = set()
-            for key, _m, hi in obj:
-                listed.add(os.path.join(self.ws, *key))
-                self.check("build(dir)", os.path.join(self.ws, *key), hi, name)
-            if listed != set(self.live_files()):
-                self.violate("listing:build(dir)", "staged tree does not list exactly the files "
-                             f"on disk: {sorted(listed ^ set(self.live_files()))}")
-        self.labels.add(f"q:build({what}):{name}")
+        _staging, _meta, obj = build(odb, self.ws, self.fs, name)
+        self.take_hits(name)
+        listed = set()
+        for key, _m, hi in obj:
+            listed.add(os.path.join(self.ws, *key))
+            self.check("build(dir)", os.path.join(self.ws, *key), hi, name)
+        if listed != set(self.live_files()):
+            self.violate("listing:build(dir)", "staged tree does not list exactly the files "
+                         f"on disk: {sorted(listed ^ set(self.live_files()))}")
+        self.labels.add(f"q:build(dir):{name}")
 
     @rule(n=size_s, pos=pos_s, offset=st.integers(0, N_PAD - 1), algo=st.sampled_from([0, 0, 0, 1, 2]))
     @traced
     def q_get_hashes(self, n, pos, offset, algo):
-        from dvc_data.hashfile.build import _get_hashes
-
-        name = ALGOS[algo]
-        paths = [p for p in self.batch(n, pos, offset) if os.path.isfile(p)]
-        infos = {p: self.fs.info(p) for p in paths}
-        self.cnt["queries"] += 1
-        res = _get_hashes(list(paths), self.fs, name, infos, state=self.state)
-        nhit = len(self.take_hits(name))
-        if sorted(res) != sorted(paths):
-            self.violate("batch-shape:_get_hashes", "_get_hashes did not answer exactly the paths asked")
-        for p in paths:
-            self.check("_get_hashes", p, res[p][1], name)
-        self.size_labels("_get_hashes", n, nhit)
+        self.r_get_hashes(self.batch(n, pos, offset), ALGOS[algo], n)
 
     @rule(algo=algo_s)
     @traced
     def q_build_entries(self, algo):
-        from dvc_data.index.build import build_entries
-
-        name = ALGOS[algo]
-        self.cnt["queries"] += 1
-        entries = list(build_entries(self.ws, self.fs, compute_hash=True, state=self.state,
-                                     hash_name=name))
-        self.take_hits(name)
-        seen = set()
-        for e in entries:
-            if e.meta is not None and e.meta.isdir:
-                continue
-            p = os.path.join(self.ws, *e.key)
-            seen.add(p)
-            self.check("build_entries", p, e.hash_info, name)
-        if seen != set(self.live_files()):
-            self.violate("listing:build_entries", "entries do not cover exactly the files on disk")
-        self.labels.add(f"q:build_entries:{name}")
+        self.r_build_entries(ALGOS[algo])
 
     def check_index(self, route, index, name=None, all_files=False):
         n = 0
@@ -562,28 +651,7 @@ class C13Machine(TraceMachine):
     @traced
     def q_index_update(self, algo, then_md5):
         """new = build(ws); update(new, old): carried-over hashes must be those of the bytes now."""
-        from dvc_data.index.build import build as ibuild
-        from dvc_data.index.save import md5 as imd5
-        from dvc_data.index.update import update
-
-        if self.old is None:
-            return
-        name = ALGOS[algo]
-        self.cnt["queries"] += 1
-        new = ibuild(self.ws, self.fs)
-        update(new, self.old)
-        carried = self.check_index("index.update", new)
-        self.cnt["carried"] += carried
-        self.labels.add("q:index.update")
-        if self.mut_count > self.old_epoch:
-            self.nt.add("update-after-mutation")
-            self.labels.add("update-after-mutation:" + ("some-carried" if carried else "none-carried"))
-        if then_md5:
-            new = imd5(new, state=self.state, name=name)
-            self.take_hits(name)
-            self.check_index("index.update+md5", new, name)
-        self.state.hits = []
-        self.old, self.old_epoch = new, self.mut_count
+        self.r_index_update(ALGOS[algo], then_md5)
 
     @rule(algo=algo_s)
     @traced
@@ -591,8 +659,6 @@ class C13Machine(TraceMachine):
         """md5() of the kept index: stored hashes are re-checked against the filesystem."""
         from dvc_data.index.save import md5 as imd5
 
-        if self.old is None:
-            return
         name = ALGOS[algo]
         self.cnt["queries"] += 1
         res = imd5(self.old, state=self.state, name=name)
